@@ -1,11 +1,13 @@
 import EmmyVerif.Lemmas.IndexDb
 import EmmyVerif.Lemmas.IndexModule
+import EmmyVerif.Lemmas.IndexSym
 /-!
 # C09 — Reindexing equals analysing the current files from scratch
 
-`reindex = clear_index + update_index(all live files in Vfs order)`. In the models `clear` resets every
-modelled map field by field (as the Rust `clear` methods do, including `LuaPropertyIndex::id_count`), so the
-theorems below are immediate; their weight is in the tie: the `index.mod` / `index.db` correspondence runs
+`reindex = clear_index + update_index(all live files in Vfs order)`. In the models `clear` empties a map
+iff the *extracted* source list says the Rust `clear` resets the corresponding field (`srcCleared` over
+`Gen.IndexFields`, regenerated from `db_index/**/mod.rs` on every run), so `clear_is_new` is a checked bridge to the
+source: a forgotten field breaks it. The remaining weight is in the tie: the `index.mod` / `index.db` correspondence runs
 execute the real `clear()` in the middle of histories and compare every entry count and lookup with the
 model afterwards, and the oracle compares the reindexed analysis with a fresh one (dump + all entry counts
 of `DbIndex::verif_report`, which destructures every index exhaustively so a new field cannot be forgotten).
@@ -13,7 +15,8 @@ of `DbIndex::verif_report`, which destructures every index exhaustively so a new
 namespace Index
 
 /-- **C09 module index: `clear_is_new`.** -/
-theorem C09_module_clear_is_new (s : Module.MState) : Module.clear s = Module.MState.new := rfl
+theorem C09_module_clear_is_new (s : Module.MState) : Module.clear s = Module.MState.new :=
+  Module.clear_eq_new s
 
 open Module in
 /-- **C09 module index: `reindex_eq_fresh`.** Whatever happened before, `clear` followed by the live files'
@@ -24,19 +27,38 @@ theorem C09_module_reindex_eq_fresh (cfg : Config) (before adds : List Op) (q : 
     specLive cfg (before ++ [Op.clear] ++ adds) = specLive cfg adds ∧
     find cfg (run cfg (before ++ [Op.clear] ++ adds)) q = find cfg (run cfg adds) q := by
   have h1 : run cfg (before ++ [Op.clear] ++ adds) = run cfg adds := by
-    simp [run, List.foldl_append, step, Module.clear, MState.new]
+    simp [run, List.foldl_append, step, Module.clear_eq_new]
   have h2 : specLive cfg (before ++ [Op.clear] ++ adds) = specLive cfg adds := by
     simp [specLive, List.foldl_append, specStep]
   exact ⟨h1, h2, by rw [h1]⟩
 
+/-! ### bridge to the source (T-src, regenerated every run by `checklib/gen/index_fields.py`) -/
+
+/-- **C09 `DbIndex::clear` visits every index.** Every field of `struct DbIndex` is an index on which
+`DbIndex::clear` calls `.clear()`, except the virtual file system and the configuration. -/
+theorem C09_clear_visits_every_index :
+    ∀ f ∈ Gen.IndexFields.dbFields, f ∈ Gen.IndexFields.dbCleared ∨ f ∈ nonIndexDbFields := by decide
+
+/-- **C09 every index `clear` resets every field.** For every index struct, every field is reset by its
+`LuaIndex::clear`, except the listed configuration / cache fields (`configFields`). A field added to an index
+without a matching line in `clear` makes this fail. -/
+theorem C09_clear_resets_every_field :
+    ∀ e ∈ Gen.IndexFields.indexes, ∀ f ∈ e.2.2.1, f ∈ e.2.2.2 ∨ (e.2.1, f) ∈ configFields := by decide
+
+/-- **C09 type / operator / metatable / member indexes: `clear_is_new`.** All 17 modelled maps of these four
+indexes are empty after `clear` — as long as the source's `clear` methods reset each of the fields
+(`member_current_owner` was the one forgotten before the `fix:`). -/
+theorem C09_sym_clear_is_new (s : Sym.S) : Sym.clear s = Sym.S.new := Sym.clear_eq_new s
+
 namespace Db
 
 /-- **C09 `clear_is_new`.** `clear` leaves the empty index, field by field. -/
-theorem C09_clear_is_new (d : Db) : clear d = Db.new := rfl
+theorem C09_clear_is_new (d : Db) : clear d = Db.new := clear_eq_new d
 
 /-- **C09 `reindex_eq_fresh`.** After any history, reindexing with the live files' contributions reaches
 exactly the state a fresh analysis of the same contributions reaches. -/
-theorem C09_reindex_eq_fresh (d : Db) (contribs : List FMut) : reindex d contribs = build contribs := rfl
+theorem C09_reindex_eq_fresh (d : Db) (contribs : List FMut) : reindex d contribs = build contribs := by
+  unfold reindex; rw [clear_eq_new]; rfl
 
 /-- no stale fact survives: a lookup after reindex sees only the re-applied contributions -/
 theorem C09_no_stale_keyed (ms contribs : List FMut) (k : Nat × Nat) :
